@@ -5,6 +5,7 @@
 //     answered with method-not-found or another error after d),
 //   - can make Close return an error (after closing the inner connection, the way CommandTransport
 //     reports a child's exit status), make Read fail at an instant, make Write fail from an instant on.
+//
 // Keep-alive is enabled on the client, the server or both.  One end event happens at a PRNG-chosen
 // instant (before the first tick, while a ping is in flight, between two ticks): Close of either
 // session, a read failure or a write failure on either side, or nothing; at the horizon both
@@ -17,6 +18,7 @@
 //   - whether that side's startKeepalive goroutine exists (runtime.Stack of the bubble, attributed by
 //     its creator goroutine) right after the end event has completed, just before the horizon, and
 //     after the final Close; ping attempts / log records after the final Close (`late`).
+//
 // The Lean side runs KeepAlive.runCancel on (interval, threshold, observed outcomes, instant of the
 // first Close call) and the property monitor checks the loop's decisions and its silence after Close.
 package mcp
@@ -429,10 +431,10 @@ func (c *ksConn) Close() error {
 // one scenario
 
 type ksRec struct {
-	side     int
-	op, obs  string
-	tags     []string
-	leaked   bool
+	side    int
+	op, obs string
+	tags    []string
+	leaked  bool
 }
 
 func ksLocal(l []int64, phi int64) string {
